@@ -4,11 +4,20 @@ EXTENDS TraceKit, TonSha
 S == INSTANCE TonSig WITH MaxV <- 0, MaxW <- 0, MaxLen <- 0, Dedupe <- TRUE, Strict <- TRUE,
                           weights <- 0, sigs <- 0, pc <- 0, i <- 0, seen <- 0, signedW <- 0, verdict <- 0
 
+\* 64-bit weights: each weight a vector of 4 limbs of 20 bits (record field bigw), compared exactly with TonNat
+N == INSTANCE TonNat WITH LB <- 1048576, NL <- 4
+RECURSIVE SumSetL(_, _)
+SumSetL(w, Q) == IF Q = {} THEN N!Zero ELSE LET x == CHOOSE y \in Q : TRUE IN N!Add(w[x], SumSetL(w, Q \ {x}))
+SumL(w) == SumSetL(w, 1..Len(w))
+GenuineL(w, sg) == S!AllGood(sg) /\ S!Distinct(sg) /\ N!Less(N!Scale(SumL(w), 2), N!Scale(SumSetL(w, S!Signers(sg)), 3))
+MustRejectL(w, sg) == ~S!AllGood(sg) \/ N!Leq(N!Scale(SumSetL(w, S!Signers(sg) \ {0}), 3), N!Scale(SumL(w), 2))
 \* record: [weights, items (each [s, k]), out = [ok |-> 1] | [err], optional ids/pubs/tosign/root/file for layout checks]
 Failed(r) ==
-    LET accepted == Has(r.out, "ok") IN
-    Clause("genuine_set_accepted", S!Genuine(r.weights, r.items) => accepted)
-    \cup Clause("accepted_without_genuine_supermajority", S!MustReject(r.weights, r.items) => ~accepted)
+    LET accepted == Has(r.out, "ok")
+        genuine == IF Has(r, "bigw") THEN GenuineL(r.bigw, r.items) ELSE S!Genuine(r.weights, r.items)
+        mustrej == IF Has(r, "bigw") THEN MustRejectL(r.bigw, r.items) ELSE S!MustReject(r.weights, r.items) IN
+    Clause("genuine_set_accepted", genuine => accepted)
+    \cup Clause("accepted_without_genuine_supermajority", mustrej => ~accepted)
     \cup Clause("node_id_layout", Has(r, "pubs") => \A j \in 1..Len(r.pubs) : r.ids[j] = Sha256(<<198, 180, 19, 72>> \o r.pubs[j]))
     \cup Clause("to_sign_layout", Has(r, "tosign") => r.tosign = <<112, 110, 11, 197>> \o r.root \o r.file)
 TInit == KitInit
